@@ -107,6 +107,55 @@ def extra(ctx):
             fails.append({"case": {"kind": "mark_request-model", "index": i}, "what": "WorkerCtx model and implementation differ", "signature": "c18:mark-request-model"})
         if err:
             fails.append({"case": {"kind": "mark_request-model"}, "what": err[-500:], "signature": "c18:mark-request-model-eval"})
+    # (5) every request counts towards max_requests and keep_alive_max_requests, whichever way it arrives: HTTP/1 requests,
+    #     HTTP/2 streams over ALPN or prior knowledge, and the request that carries an h2c upgrade (stream 1 of the new connection)
+    import h2.config
+    import h2.connection
+
+    for _ in range(ctx.scale(12, 120, 40)):
+        kind = rng.choice(["h1", "h2-alpn", "h2c-upgrade", "h2c-upgrade"])
+        k = rng.choice([0, 1, 3])
+        d = S.Driver()
+        cfg = R.make_config(())
+        cfg._log = R.RecLog([])
+        records = []
+        rig = S.ProtoRig(S.scripted_app([], records, d, default=[("send", {"type": "http.response.start", "status": 200, "headers": []}),
+                                                                    ("send", {"type": "http.response.body", "body": b"ok"})]),
+                         cfg, d, alpn="h2" if kind == "h2-alpn" else None, ssl=(kind == "h2-alpn"), max_requests=1000)
+        c = h2.connection.H2Connection(h2.config.H2Configuration(client_side=True, header_encoding=None))
+        sent = 0
+        if kind == "h1":
+            for i in range(k + 1):
+                rig.feed(b"GET /r%d HTTP/1.1\r\nHost: x\r\n\r\n" % i)
+                rig.run()
+                sent += 1
+        else:
+            if kind == "h2c-upgrade":
+                settings = c.initiate_upgrade_connection()
+                rig.feed(b"GET /up HTTP/1.1\r\nHost: x\r\nConnection: Upgrade, HTTP2-Settings\r\nUpgrade: h2c\r\nHTTP2-Settings: " + settings + b"\r\n\r\n")
+                rig.run()
+                sent += 1
+                sid = 3
+            else:
+                c.initiate_connection()
+                sid = 1
+            out = c.data_to_send()
+            if out:
+                rig.feed(out)
+                rig.run()
+            for i in range(k):
+                c.send_headers(sid, [(b":method", b"GET"), (b":path", b"/s%d" % sid), (b":scheme", b"https"), (b":authority", b"x")], end_stream=True)
+                rig.feed(c.data_to_send())
+                rig.run()
+                sid += 2
+                sent += 1
+        n += 1
+        dist["request_counting"] = dist.get("request_counting", 0) + 1
+        counted = rig.context.requests
+        if counted != len(records) or len(records) != sent:
+            fails.append({"case": {"kind": "request-counting", "opening": kind, "sent": sent, "instances": len(records), "counted": counted},
+                          "what": f"{sent} requests, {len(records)} application instances, {counted} counted by mark_request",
+                          "signature": "c18:request-counting"})
     # (4) the real worker_serve of both workers: the jitter is drawn from [0, max_requests_jitter], and serve() begins
     #     its graceful exit right after request number max_requests + jitter + 1
     for backend, mx, jit, pick in recycle_plan(ctx):
